@@ -138,10 +138,12 @@ fn check_logit(case: &LogitCase, ctx: &mut Ctx) -> Result<(), Fail> {
     let _ = smartcore::verif_hooks::take_last_optimizer_run();
     let mut optimizer_run = None;
     let r = catch(|| {
-        let m = LogisticRegression::fit(&xm, &case.y, LogisticRegressionParameters::default().with_alpha(case.alpha)).map_err(|e| e.to_string())?;
+        // inherent entry points, or (every other case) the generic traits of smartcore::api
+        let via_trait = n % 2 == 1;
+        let m: LogisticRegression<f64, DenseMatrix<f64>> = if via_trait { sup_fit(&xm, &case.y, LogisticRegressionParameters::default().with_alpha(case.alpha)) } else { LogisticRegression::fit(&xm, &case.y, LogisticRegressionParameters::default().with_alpha(case.alpha)) }.map_err(|e| e.to_string())?;
         // (iterations used, iteration limit) of the L-BFGS run inside `fit`, through the verification hook
         optimizer_run = smartcore::verif_hooks::take_last_optimizer_run();
-        let pred = m.predict(&qm).map_err(|e| e.to_string())?;
+        let pred: Vec<f64> = if via_trait { tr_predict(&m, &qm) } else { m.predict(&qm) }.map_err(|e| e.to_string())?;
         Ok::<_, String>((to_mat(m.coefficients()), to_mat(m.intercept()), pred))
     });
     let (coef, icpt, pred) = match r {
